@@ -7,7 +7,7 @@ from props.parsing import byte_stream, mutate
 import specgen
 
 def gen_histories(tier, rng):
-    n = 1500 if tier == "quick" else 40000
+    n = 1500 if tier == "quick" else 200000
     out = []
     for _ in range(n):
         doc, cfg, steps = make_history(rng)
@@ -16,7 +16,7 @@ def gen_histories(tier, rng):
 
 def gen_invalid_targets(tier, rng):
     """all mutating commands on files that do not parse, and parameters chosen to make a step fail"""
-    n = 800 if tier == "quick" else 20000
+    n = 800 if tier == "quick" else 80000
     out = []
     for _ in range(n):
         doc, cfg, steps = make_history(rng, max_steps=3)
